@@ -1,6 +1,7 @@
 package main
 
 import (
+	"sort"
 	"encoding/json"
 	"errors"
 	"fmt"
@@ -9,6 +10,7 @@ import (
 	"path/filepath"
 	"strconv"
 	"strings"
+	"syscall"
 
 	"github.com/octohelm/gengo/pkg/gengo"
 	"github.com/octohelm/gengo/pkg/gengo/snippet"
@@ -90,6 +92,8 @@ func (g *core) render(c gengo.Context, parts []proto.Part) {
 			c.Render(snippet.T(p.Tmpl, args))
 		case p.DocRef != "":
 			c.Render(snippet.Block(docComment(c, p.DocRef)))
+		case p.Results:
+			c.Render(snippet.Block(resultsComment(c)))
 		case p.Ref != "":
 			c.Render(snippet.ID(p.Ref))
 		case p.Value != "":
@@ -115,6 +119,36 @@ func (g *core) render(c gengo.Context, parts []proto.Part) {
 
 // docComment reads the documentation of a type of any loaded package through the public API, the
 // way a generator that documents field types would.
+// resultsComment asks the universe for the possible results of every function of the processed package.
+func resultsComment(c gengo.Context) string {
+	pkg := c.Package("")
+	fns := pkg.Functions()
+	names := make([]string, 0, len(fns))
+	for n := range fns {
+		names = append(names, n)
+	}
+	sort.Strings(names)
+	var sb strings.Builder
+	sb.WriteString("\n")
+	for _, n := range names {
+		res, k := pkg.ResultsOf(fns[n])
+		var all []string
+		for _, alternatives := range res {
+			var one []string
+			for _, r := range alternatives {
+				t := r.String()
+				if r.Expr != nil {
+					t += " = " + types.ExprString(r.Expr)
+				}
+				one = append(one, t)
+			}
+			all = append(all, strings.Join(one, " | "))
+		}
+		sb.WriteString(fmt.Sprintf("// RESULTS %s (%d): (%s)\n", n, k, strings.ReplaceAll(strings.Join(all, ", "), "\n", " ")))
+	}
+	return sb.String()
+}
+
 func docComment(c gengo.Context, ref string) string {
 	i := strings.LastIndex(ref, ".")
 	pkg := c.Package(ref[:i])
@@ -134,6 +168,9 @@ func (g *core) apply(c gengo.Context, kind string, obj *types.TypeName, rules ma
 	st.seen++
 	ev := proto.Event{Kind: kind, Gen: g.script.Name, Pkg: ctxPkg(c), Inst: st.serial}
 	describe(&ev, obj)
+	if g.script.Inspect && kind == "gen" {
+		ev.Problems = inspectFromGenerator(c.Package(""), c.Package)
+	}
 	act := rec.genEvent(ev)
 	rule, ok := rules[ev.Pkg+" "+ev.Type]
 	if !ok {
@@ -148,6 +185,10 @@ func (g *core) apply(c gengo.Context, kind string, obj *types.TypeName, rules ma
 		var m map[string]int
 		m["injected panic in generator"] = 1
 	case actGenError:
+		if k := (st.seen + len(ev.Type) + len(ev.Pkg)) % (len(errTexts) + 2); k >= len(errTexts) {
+			// a failure that wraps a "transient" errno (a busy lock, an interrupted call) is a failure too
+			return fmt.Errorf("cache lock busy: %w", []error{syscall.EAGAIN, syscall.EINTR}[k-len(errTexts)])
+		}
 		return errors.New(errTexts[st.seen%len(errTexts)])
 	case actGenUnparseable:
 		c.Render(snippet.Block("\nfunc ( {{{ unparseable\n"))
